@@ -250,16 +250,21 @@ class Tensor:
             for i in index_tuple
             for j in (i.nonzero() if isinstance(i, np.ndarray) and i.dtype == bool and i.ndim > 1 else (i,))
         )
-        index = tuple(
-            None if isinstance(i, (bool, np.bool_)) or (isinstance(i, np.ndarray) and i.ndim == 0 and i.dtype == bool) else i
+        is_bool_scalar = [
+            isinstance(i, (bool, np.bool_)) or (isinstance(i, np.ndarray) and i.ndim == 0 and i.dtype == bool)
             for i in index_tuple
-        )
+        ]
+        index = tuple(None if b else i for i, b in zip(index_tuple, is_bool_scalar))
         normalized_index = normalize_index(index, self.shape)  # type: ignore[no-untyped-call]
+        # normalize_index keeps the None entries in order: mark the ones that stand for a boolean scalar,
+        # which numpy treats as an advanced index (of length 1) that consumes no axis
+        none_is_bool = iter([b for i, b in zip(index, is_bool_scalar) if i is None])
+        bool_positions = [k for k, ind in enumerate(normalized_index) if ind is None and next(none_is_bool)]
         advanced_indices = []
         advanced_arrays = []
         index_mapping: list[int | None] = list(range(self.rank))
         i = 0
-        for ind in normalized_index:
+        for k, ind in enumerate(normalized_index):
             # axis with integer index will be removed
             if isinstance(ind, int):
                 index_mapping.pop(i)
@@ -268,6 +273,9 @@ class Tensor:
             # new axis inserted by None index
             if ind is None:
                 index_mapping.insert(i, None)
+                if k in bool_positions:
+                    advanced_indices.append(i)
+                    advanced_arrays.append(np.zeros(1, dtype=int))
 
             # advanced indexing
             elif isinstance(ind, np.ndarray):
@@ -283,7 +291,9 @@ class Tensor:
         a0, a1 = advanced_indices[0], advanced_indices[-1]
 
         # numpy treats integers like index arrays when it decides whether the advanced indices are adjacent
-        positions = [k for k, ind in enumerate(normalized_index) if isinstance(ind, (int, np.ndarray))]
+        positions = [
+            k for k, ind in enumerate(normalized_index) if isinstance(ind, (int, np.ndarray)) or k in bool_positions
+        ]
 
         if positions != list(range(positions[0], positions[-1] + 1)):
             # create advanced indices in front
